@@ -34,7 +34,7 @@ RULE = (
 )
 BOUND = {
     "quick": "all histories of length <= 2 over 25 calls (plus repeats a,a,a); the all-pairs chain (1152 calls); fingerprint BFS depth 3 from each first call; all <=1-preemption schedules for 16 ordered pairs",
-    "thorough": "all histories of length <= 3 over 25 calls; the all-pairs chain; fingerprint BFS depth 5 from each first call (at most 4000 transitions / 600 s per root: roots that hit the cap are reported); all <=1-preemption schedules for all ordered pairs; 2 preemptions on 12 pairs",
+    "thorough": "all histories of length <= 3 over 25 calls; the all-pairs chain; fingerprint BFS depth 5 from each first call (at most 4000 transitions / 600 s per root: roots that hit the cap are reported); all <=1-preemption schedules for all ordered pairs (a pair with more than 2500 schedules on an even grid, 600 s per pair: reported); 2 preemptions on 12 pairs",
 }
 ASSUMPTIONS = [
     "threads are explored at 'call' granularity under the GIL; compiled (mypyc/Cython) builds and state inside the standard "
@@ -221,7 +221,7 @@ def units(tier: str) -> list[tuple]:
         # macro / path-literal / concatenation / failing-macro calls against plain calls and against each other
         pairs = [(3, 0), (3, 3), (3, 14), (14, 3), (4, 0), (4, 4), (4, 3), (5, 0), (5, 16), (8, 10), (8, 15), (10, 8), (7, 15), (14, 15), (6, 3), (16, 5)]
     for a, b in pairs:
-        us.append(("sched", a, b, 1))
+        us.append(("sched", a, b, 1) if tier == "quick" else ("sched", a, b, 1, "capped"))
     if len(POOL) > N_STATIC:
         # a short call against the deeply nested input that is still accepted: process-wide settings (the recursion limit)
         # saved and restored around a parse race between threads; 2 preemptions on a grid of 12 x 11 points
@@ -230,7 +230,7 @@ def units(tier: str) -> list[tuple]:
             us.append(("sched", 2, N_STATIC, 2, "sampled"))
     if tier == "thorough":
         for a, b in [(3, 3), (3, 14), (14, 3), (4, 8), (8, 10), (10, 10), (5, 16), (16, 0), (14, 15), (7, 15), (8, 15), (6, 3)]:
-            us.append(("sched", a, b, 2))
+            us.append(("sched", a, b, 2, "capped"))
     return us
 
 
@@ -248,7 +248,7 @@ def cases(unit: tuple) -> Iterator[dict]:
     elif k == "chain":
         yield {"chain": True}
     else:
-        yield {"sched": [unit[1], unit[2]], "preemptions": unit[3], **({"sampled": True} if len(unit) > 4 else {})}
+        yield {"sched": [unit[1], unit[2]], "preemptions": unit[3], **({unit[4]: True} if len(unit) > 4 else {})}
 
 
 def run_unit(unit: tuple, acc: Any) -> None:
@@ -341,6 +341,8 @@ def bfs(depth: int, acc: Any, case: dict) -> None:
     acc.notes["bfs_roots_emptied"] = acc.notes.get("bfs_roots_emptied", 0) + (0 if frontier or capped else 1)
 
 
+SCHED_CAP = 2500  # schedules per pair of threads
+SCHED_SECONDS = 600.0  # and wall time per pair
 BFS_CAP = 4000  # transitions per root
 BFS_SECONDS = 600.0  # and wall time per root (the case deadline is 900 s)
 _BFS_FAIL: list[tuple] = []
@@ -453,7 +455,15 @@ def explore_schedules(a: int, b: int, preemptions: int, acc: Any, case: dict) ->
     if case.get("sampled"):  # a grid instead of every point: the deep input has tens of thousands of scheduling points
         ks = sorted(set(range(1, na + 1, max(1, na // 8))) | set(range(1, min(na, 4) + 1)))
         ms = [None] + list(range(1, nb + 1, max(1, nb // 10)))
+    t0 = time.time()
+    if case.get("capped") and na * len(ms) > SCHED_CAP:
+        # a pair with more schedules than the cap is explored on an even grid of A's points (and reported as capped)
+        ks = range(1, na + 1, -(-na * len(ms) // SCHED_CAP))
+        acc.notes["sched_pairs_capped"] = acc.notes.get("sched_pairs_capped", 0) + 1
     for k in ks:
+        if case.get("capped") and time.time() - t0 > SCHED_SECONDS:
+            acc.notes["sched_pairs_cut_short"] = acc.notes.get("sched_pairs_cut_short", 0) + 1
+            break
         for m in ms:
             ra, rb, info = run_schedule(a, b, k, m)
             acc.ran(2)
@@ -546,5 +556,7 @@ def finalize(acc: Any, tier: str) -> dict:
          "roots_whose_frontier_emptied": acc.notes.get("bfs_roots_emptied", 0), "roots_capped": acc.notes.get("bfs_roots_capped", 0),
          "cap_per_root": {"transitions": BFS_CAP, "seconds": BFS_SECONDS}, "deep_inputs": DEEP_INFO}
     so = acc.notes.get("schedule_outcomes") or []
-    return {"bfs": b, "exhaustive": b["roots_capped"] == 0, "schedules": acc.transitions, "distinct_outcomes_per_pair_max": max(so) if so else 0,
+    capped = acc.notes.get("sched_pairs_capped", 0) + acc.notes.get("sched_pairs_cut_short", 0)
+    return {"bfs": b, "exhaustive": b["roots_capped"] == 0 and capped == 0, "schedules": acc.transitions,
+            "pairs_explored_on_a_grid": acc.notes.get("sched_pairs_capped", 0), "pairs_cut_short_by_time": acc.notes.get("sched_pairs_cut_short", 0), "distinct_outcomes_per_pair_max": max(so) if so else 0,
             "states": acc.cases + b["states"] + acc.states, "transitions": acc.cases + b["transitions"] + acc.transitions}
